@@ -45,6 +45,19 @@ def WellFormed (cfg : Cfg) (stale : List Bytes) (x : Exchange) : Prop :=
   x.resp.flatten ≠ [] ∧
   ExactAt (promptPred cfg) x.resp.flatten
 
+/-- non-vacuity: a two-chunk echo `r#s|h` of the command `sh` and a two-chunk response
+`⏎ok|⏎r#` are well formed for a toy prompt matcher ("window ends in #"), also with the stale
+prompt `r#` left in the queue by the login -/
+def demoCfg : Cfg :=
+  { depth := 20, mult := 2, exact := false, strip := true, ret := [LF],
+    promptP := fun w => w.getLast? == some 35, stripP := id }
+
+def demoX1 : Exchange := ⟨[115, 104], [[114, 35, 115], [104]], [[10, 111, 107], [10, 114, 35]]⟩
+def demoX2 : Exchange := ⟨[115, 104], [[115], [], [104]], [[10, 111, 107, 10, 114], [35]]⟩
+
+example : WellFormed demoCfg [] demoX1 := by unfold WellFormed; decide +kernel
+example : WellFormed demoCfg [[114, 35]] demoX2 := by unfold WellFormed; decide +kernel
+
 /-- One send, possibly with stale bytes in the queue (the recovery clause of C05 reuses this):
 the result is the processed response of *this* exchange, the queue is drained, and the device was
 sent the command and then one return. -/
@@ -134,6 +147,41 @@ theorem window_length_le (rb : Bytes) (d : Nat) : (window rb d).length ≤ max r
     conv => lhs; rw [h]
     simp
   omega
+
+/-- "Every line is shorter than the search depth", stated without reference to a line splitter:
+every run of `d` consecutive bytes of the buffer contains a line feed. -/
+def NoLongLine (rb : Bytes) (d : Nat) : Prop :=
+  ∀ i, i + d ≤ rb.length → LF ∈ (rb.drop i).take d
+
+/-- With a search depth larger than every line, the window is the whole buffer or starts exactly
+at a line feed of the buffer: a `^`-anchored prompt pattern never sees a line cut in the middle. -/
+theorem window_starts_at_line_boundary (rb : Bytes) (d : Nat) (h : NoLongLine rb d) :
+    window rb d = rb ∨ ∃ pre rest, rb = pre ++ LF :: rest ∧ window rb d = LF :: rest := by
+  unfold window
+  split
+  · exact Or.inl rfl
+  · rename_i hlen
+    right
+    simp only
+    have hd : (rb.drop (rb.length - d)).take d = rb.drop (rb.length - d) := by
+      apply List.take_of_length_le
+      simp; omega
+    have hmem : LF ∈ rb.drop (rb.length - d) := by
+      have := h (rb.length - d) (by omega)
+      rwa [hd] at this
+    cases hidx : indexLF (rb.drop (rb.length - d)) with
+    | none => exact absurd hmem ((indexLF_none_iff _).mp hidx)
+    | some i =>
+      obtain ⟨rest, hr⟩ := indexLF_some _ i hidx
+      simp only
+      split
+      · refine ⟨rb.take (rb.length - d) ++ (rb.drop (rb.length - d)).take i, rest, ?_, hr⟩
+        rw [List.append_assoc, ← hr, List.take_append_drop, List.take_append_drop]
+      · rename_i hi
+        have : i = 0 := by omega
+        subst this
+        simp only [List.drop_zero] at hr
+        exact ⟨rb.take (rb.length - d), rest, by rw [← hr, List.take_append_drop], hr⟩
 
 /-- the search depth used while looking for the echo is never smaller than the prompt search depth
 nor than `mult ×` the input length (window ≥ 2× input length for the extracted multiplier) -/
